@@ -132,6 +132,9 @@ def _gen(rng, tree, name):
             op["parallel_slice_mode"] = rng.choice(["temperature", "time", "constant"])
         return op
     if name == "remove_ind":
+        if tree.sliced_inds and rng.random() < 0.12:
+            # a request the library refuses ("already sliced"): the tree must be left exactly as it was
+            return {"op": name, "ind": rng.choice(list(tree.sliced_inds)), "inplace": inplace, "expect_refusal": True}
         free = _free_inds(tree)
         if not free:
             return None
